@@ -43,6 +43,10 @@ type Prog struct {
 	// helperSite: the single call site of an extracted private helper (same package); the
 	// parent maps continue from the helper's declaration to that call (bridgeHelpers)
 	helperSite map[*ast.FuncDecl]*ast.CallExpr
+	// helperOwner: key of an extracted helper -> key of the function that calls it; obligations
+	// found inside the helper are attributed to the owner (their keys, and the known findings
+	// that name them, survive the extraction)
+	helperOwner map[string]string
 	Tests    bool
 	GOARCH   string
 	// RoleNotes: anchors that were not found by name and were resolved by role (roles.go)
@@ -298,6 +302,18 @@ func (p *Prog) bridgeHelpers(m map[ast.Node]ast.Node) {
 			m[fd] = cs
 		}
 	}
+}
+
+// ownerKey maps the key of an extracted private helper to the baseline function it was cut from.
+func (p *Prog) ownerKey(key string) string {
+	for i := 0; i < 4; i++ {
+		o, ok := p.helperOwner[key]
+		if !ok {
+			break
+		}
+		key = o
+	}
+	return key
 }
 
 // funcBoundary: m is a function declaration at which an ancestor walk ends (not a bridged helper).
